@@ -49,6 +49,10 @@ from mashumaro.mixins.toml import DataClassTOMLMixin
 T = TypeVar("T")
 U = TypeVar("U")
 
+class Opaque:
+    """a type neither mashumaro nor its JSON Schema builder supports"""
+
+
 def _ser_slash(d):
     return d.strftime("%Y/%m/%d")
 def _de_slash(s):
@@ -95,6 +99,8 @@ def render_type(t, defined=None) -> str:
         return k
     if k == "any":
         return "Any"
+    if k == "opaque":
+        return "Opaque"
     if k == "opt":
         return f"Optional[{render_type(t[1], defined)}]"
     if k == "list":
